@@ -15,6 +15,7 @@ References:
 from dataclasses import dataclass
 
 import numpy as np
+from pb_bss import _verif
 from pb_bss.utils import is_broadcast_compatible
 from pb_bss.distribution.utils import force_hermitian
 from pb_bss.distribution.utils import _ProbabilisticModel
@@ -247,6 +248,7 @@ class ComplexAngularCentralGaussianTrainer:
                 eigenvalue_floor=eigenvalue_floor,
             )
             _, quadratic_form = model._log_pdf(y)
+            if _verif.enabled: _verif.emit('cacg_iter', trainer=self, model=model, quadratic_form=quadratic_form)
 
         return model
 
